@@ -107,6 +107,9 @@ type Path struct {
 	fnsHit    map[*ssa.Function]bool
 	nQueries  int
 	mapOrderRev bool
+	finalChecked bool
+	schedBudget  int // deviations from the default schedule explored (vSchedules)
+	nTable       int // branch conditions decided by domain tables (no solver call)
 	pureChecked  int
 	impure       bool
 	logApps      []*Term
@@ -282,8 +285,38 @@ func (p *Path) query(extra ...*Term) Res {
 	return r
 }
 
+// trivialModel: when no variable is entangled (every constraint on the path is a
+// single-variable one, already reflected in the narrowed domains) any choice of
+// an allowed value per variable satisfies the path condition - no solver needed.
+func (p *Path) trivialModel(extra []*Term) (map[string]ModelValue, bool) {
+	if len(p.ent) != 0 || p.impure {
+		return nil, false
+	}
+	for _, e := range extra {
+		if !(e.IsConst() && e.C != 0) {
+			return nil, false
+		}
+	}
+	for _, c := range p.pc {
+		if c.SV == nil && !(c.Op == OpOr && c.Name == "raw") && !(c.Op == OpEq && c.Name == "raw") && !(c.Op == OpAnd && c.Name == "raw") {
+			return nil, false
+		}
+	}
+	m := make(map[string]ModelValue, len(p.vars))
+	for _, v := range p.vars {
+		if v.Dom == nil {
+			return nil, false
+		}
+		m[v.Name] = ModelValue{U: p.anyAllowed(v), S: v.S}
+	}
+	return m, true
+}
+
 // queryModel is query plus model extraction on sat.
 func (p *Path) queryModel(extra ...*Term) (Res, map[string]ModelValue) {
+	if m, ok := p.trivialModel(extra); ok {
+		return Sat, m
+	}
 	p.sync()
 	sv := p.w.sv
 	sv.Push()
@@ -474,13 +507,16 @@ func (p *Path) Decide(c *Term) bool {
 	if c.SV != nil {
 		t, f := p.tabRange(c)
 		if !f {
+			p.nTable++
 			return true
 		}
 		if !t {
+			p.nTable++
 			return false
 		}
 		if !p.ent[c.SV] {
 			fastBoth = true
+			p.nTable++
 		}
 	}
 	if p.pos < len(p.prefix) {
